@@ -224,7 +224,7 @@ def stypeOf (cv : Conv F) (col : String) : Stype := (dictGet cv.colToStype col).
 
 def cfg (cv : Conv F) (col : String) : ColCfg F :=
   { cats := ((dictGet cv.stats col).getD {}).cats, embed := cv.embedders col
-    embDim := ((dictGet cv.stats col).getD {}).embDim.toNat }
+    embDim := ((dictGet cv.stats col).getD {}).embDim }
 
 /-- `self._get_mapper(col).forward(df[col])`; `none` = KeyError (`df` lacks the column) -/
 def mapCol (cv : Conv F) (df : DF L F) (col : String) : Option (ColOut F) :=
@@ -273,6 +273,43 @@ def run (cv : Conv F) (dfs : List (DF L F)) : Option (List (TF F) × Conv F) :=
     pure (acc.1 ++ [tf], cv')) ([], cv)
 
 end Conv
+
+/-! ### specification layer of the converter -/
+
+/-- what `_merge_feat` does to a name table: one step … -/
+def mergeNamesStep (names : List (Stype × List String)) (s : Stype) : List (Stype × List String) :=
+  if s.parent = s then names else
+  match dictGet names s with
+  | none => names
+  | some cs => dictErase (dictSet names s.parent ((dictGet names s.parent).getD [] ++ cs)) s
+
+/-- … and the whole loop: every child group is appended behind its parent's names and dropped -/
+def mergeNames (names : List (Stype × List String)) : List (Stype × List String) :=
+  childOrder.foldl mergeNamesStep names
+
+/-- SPECIFICATION of a converted column: every raw cell of `df[name]` encoded by `encodeCell`
+    under the converter's fitted statistics and the column's own stype -/
+def specCol (cv : Conv F) (df : DF L F) (name : String) : List (List (Val F)) :=
+  match df.col? name with
+  | some c => c.cells.map (encodeCell (cv.cfg name) (cv.stypeOf name))
+  | none => []
+
+/-- The typed domain of one converter call on a frame of `n ≥ 1` rows: the name table has distinct,
+    non-empty groups of distinct names, none of them a token-valued group; every listed column is in the frame with `n` cells of
+    the kind its group stores, inside the typed domain `ColWF`; embedding-kind columns have a uniform width;
+    and the target column, if the frame has it, is of a dense kind. -/
+structure CallOK (cv : Conv F) (df : DF L F) (n : Nat) : Prop where
+  npos : 0 < n
+  labels : df.labels.length = n
+  nonempty : cv.names ≠ []
+  keys : (cv.names.map (·.1)).Nodup
+  groups : ∀ g ∈ cv.names, g.2 ≠ [] ∧ g.1.useDict = false
+  cols : ∀ g ∈ cv.names, ∀ c ∈ g.2, ∃ col, df.col? c = some col ∧ col.cells.length = n ∧
+    (cv.stypeOf c).useNested = g.1.useNested ∧ (cv.stypeOf c).useEmbedding = g.1.useEmbedding ∧
+    ColWF (cv.cfg c) (cv.stypeOf c) col.cells ∧
+    (g.1.useEmbedding = true → ∃ w, ∀ cell ∈ col.cells, (encodeCell (cv.cfg c) (cv.stypeOf c) cell).length = w)
+  target : ∀ t col, cv.target = some t → df.col? t = some col →
+    col.cells.length = n ∧ ColWF (cv.cfg t) (cv.stypeOf t) col.cells
 
 /-! ### Dataset.materialize -/
 
